@@ -606,6 +606,10 @@ def run(prog: Program) -> Results:
 def _disjoint(prog: Program, ga, routes) -> bool:
     """the overlapping routes draw from comment lists that are disjoint by construction"""
     f_keys = {r.func for r in routes}
+    # idiom 3: the routes draw from different sub-lists of one sorting loop (`for c in comments: (a if P(c) else b).append(c)`)
+    srcs = [r.source for r in routes]
+    if all(srcs) and len(set(srcs)) == len(srcs) and any(set(srcs) <= parts for _src, parts, _loop in ga.partitions):
+        return True
     for fk in f_keys:
         f = prog.funcs[fk]
         txt = norm(f.node)
